@@ -227,7 +227,15 @@ class Gen:
         r = self.r
         t = r.choice(SUMS)
         n = self.fresh("s")
-        ss = [{"s": "let", "n": n, "x": self.sum_lit(t), "ty": t, "mut": True}]
+        if t == ENUM_E and r.random() < 0.4:
+            # two different variants, not yet converted to the enum, unified by if / else
+            (k1, p1, _), (k2, p2, _) = r.sample(self.variants(t), 2)
+            raw = lambda k, pt: {"e": "blk", "label": "", "ss": [], "tail": {
+                "e": "variant", "k": k, "x": self.expr(pt, 1) if pt is not None else NONE, "sty": t, "raw": True}}
+            ss = [{"s": "let", "n": n, "ty": t, "mut": True, "noann": True,
+                   "x": {"e": "ifx", "c": self.expr(BOOL), "t": raw(k1, p1), "f": raw(k2, p2)}}]
+        else:
+            ss = [{"s": "let", "n": n, "x": self.sum_lit(t), "ty": t, "mut": True}]
         self.declare(n, t, True)
         var = {"e": "var", "n": n, "ty": t}
         if r.random() < 0.5:
